@@ -570,7 +570,8 @@ class PixelAperture(Aperture):
                 aperture_sums.append(values.sum())
 
                 if error is not None:
-                    variance = (error[slc_large]**2 * aper_weights)[pixel_mask]
+                    err_cutout = error[slc_large].astype(float)
+                    variance = (err_cutout**2 * aper_weights)[pixel_mask]
                     aperture_sum_errs.append(np.sqrt(variance.sum()))
 
         aperture_sums = np.array(aperture_sums)
